@@ -244,7 +244,9 @@ impl PathSegmentsMut<'_> {
             parser.context = parser::Context::PathSegmentSetter;
             for segment in segments {
                 let segment = segment.as_ref();
-                if matches!(segment, "." | "..") {
+                // The parser removes tabs and newlines: test the text it will see.
+                let seen = segment.chars().filter(|c| !matches!(c, '\t' | '\n' | '\r'));
+                if seen.clone().eq(".".chars()) || seen.eq("..".chars()) {
                     continue;
                 }
                 if parser.serialization.len() > path_start + 1
